@@ -939,16 +939,9 @@ func (fg *FnGen) isPrivateAlloc(a *ssa.Alloc) bool {
 		fg.privateOf[a] = false
 		return false
 	}
-	// only worthwhile for captured variables (heap allocs with a closure user)
-	hasClosure := false
-	if a.Referrers() != nil {
-		for _, r := range *a.Referrers() {
-			if _, ok := r.(*ssa.MakeClosure); ok {
-				hasClosure = true
-			}
-		}
-	}
-	res := hasClosure && addrOK(a, 0)
+	// a local whose address never leaves the function (loads, stores, field/index addressing, closures that are only
+	// called here): callees cannot reach it
+	res := addrOK(a, 0)
 	fg.privateOf[a] = res
 	return res
 }
